@@ -49,8 +49,43 @@ type Conn struct {
 }
 
 type Case struct {
-	L []Item `json:"l"`
-	A Args   `json:"a"`
+	L    []Item `json:"l"`
+	A    Args   `json:"a"`
+	Surf int    `json:"surf"`
+}
+
+// The model's names and filter token are lower-case ASCII words.  The text filter is case-insensitive for
+// every letter, so a case may be run on another surface of the same words: each letter in random case
+// (Surf 1), or each letter replaced - one to one - by a non-ASCII letter with a simple upper/lower pair, in
+// random case (Surf 2).  Only what the filter fields return and the filterText argument change; sorting
+// keeps using the model's names.
+var surfMode int
+
+var uni = map[rune][2]rune{'a': {'ä', 'Ä'}, 'b': {'б', 'Б'}, 'c': {'ç', 'Ç'}, 'd': {'д', 'Д'}, 'e': {'é', 'É'}, 'i': {'и', 'И'},
+	'l': {'л', 'Л'}, 'm': {'м', 'М'}, 'n': {'ñ', 'Ñ'}, 'o': {'ö', 'Ö'}, 's': {'ш', 'Ш'}, 't': {'т', 'Т'}, 'z': {'ž', 'Ž'}}
+
+func surface(s string, salt string) string {
+	if surfMode == 0 {
+		return s
+	}
+	h := 7
+	for _, c := range salt {
+		h = h*31 + int(c)
+	}
+	out := []rune{}
+	for i, c := range s {
+		up := (h>>uint(i%16)+i)%2 == 1
+		pair, ok := uni[c]
+		switch {
+		case surfMode == 2 && ok:
+			out = append(out, pair[map[bool]int{false: 0, true: 1}[up]])
+		case up && c >= 'a' && c <= 'z':
+			out = append(out, c-32)
+		default:
+			out = append(out, c)
+		}
+	}
+	return string(out)
 }
 
 type Rec struct {
@@ -76,11 +111,19 @@ func build() *graphql.Schema {
 	q := s.Query()
 	list := func() []*Item { return current }
 	name := func(it *Item) string { return it.Name }
+	fname := func(it *Item) string { return surface(it.Name, it.Key) }
 	rank := func(it *Item) int64 { return it.Rank }
 	bname := func(m map[batch.Index]*Item) (map[batch.Index]string, error) {
 		out := map[batch.Index]string{}
 		for i, it := range m {
 			out[i] = it.Name
+		}
+		return out, nil
+	}
+	bfname := func(m map[batch.Index]*Item) (map[batch.Index]string, error) {
+		out := map[batch.Index]string{}
+		for i, it := range m {
+			out[i] = surface(it.Name, it.Key)
 		}
 		return out, nil
 	}
@@ -92,21 +135,22 @@ func build() *graphql.Schema {
 		return out, nil
 	}
 	nameE := func(it *Item) (string, error) { return it.Name, nil }
+	fnameE := func(it *Item) (string, error) { return surface(it.Name, it.Key), nil }
 	rankE := func(it *Item) (int64, error) { return it.Rank, nil }
 	on := func(context.Context) bool { return true }
 	off := func(context.Context) bool { return false }
 	q.FieldFunc("itemsPlain", list, schemabuilder.Paginated,
-		schemabuilder.FilterField("name", name), schemabuilder.SortField("rank", rank), schemabuilder.SortField("name", name))
+		schemabuilder.FilterField("name", fname), schemabuilder.SortField("rank", rank), schemabuilder.SortField("name", name))
 	q.FieldFunc("itemsExp", list, schemabuilder.Paginated,
-		schemabuilder.FilterField("name", name, schemabuilder.Expensive),
+		schemabuilder.FilterField("name", fname, schemabuilder.Expensive),
 		schemabuilder.SortField("rank", rank, schemabuilder.Expensive), schemabuilder.SortField("name", name, schemabuilder.Expensive))
 	q.FieldFunc("itemsBatch", list, schemabuilder.Paginated,
-		schemabuilder.BatchFilterField("name", bname), schemabuilder.BatchSortField("rank", brank), schemabuilder.BatchSortField("name", bname))
+		schemabuilder.BatchFilterField("name", bfname), schemabuilder.BatchSortField("rank", brank), schemabuilder.BatchSortField("name", bname))
 	q.FieldFunc("itemsFbOn", list, schemabuilder.Paginated,
-		schemabuilder.BatchFilterFieldWithFallback("name", bname, nameE, on),
+		schemabuilder.BatchFilterFieldWithFallback("name", bfname, fnameE, on),
 		schemabuilder.BatchSortFieldWithFallback("rank", brank, rankE, on), schemabuilder.BatchSortFieldWithFallback("name", bname, nameE, on))
 	q.FieldFunc("itemsFbOff", list, schemabuilder.Paginated,
-		schemabuilder.BatchFilterFieldWithFallback("name", bname, nameE, off),
+		schemabuilder.BatchFilterFieldWithFallback("name", bfname, fnameE, off),
 		schemabuilder.BatchSortFieldWithFallback("rank", brank, rankE, off), schemabuilder.BatchSortFieldWithFallback("name", bname, nameE, off))
 	s.Mutation()
 	return s.MustBuild()
@@ -136,7 +180,7 @@ func queryText(variant string, a Args, afterCursor, beforeCursor *string) string
 		parts = append(parts, fmt.Sprintf("before: %q", *beforeCursor))
 	}
 	if a.Filter != "none" {
-		parts = append(parts, fmt.Sprintf("filterText: %q", a.Filter))
+		parts = append(parts, fmt.Sprintf("filterText: %q", surface(a.Filter, "filter")))
 	}
 	if a.SortBy != "none" {
 		parts = append(parts, fmt.Sprintf("sortBy: %q", a.SortBy))
@@ -294,11 +338,12 @@ func Main(args []string) error {
 		case 1:
 			a.Last = r.Intn(5)
 		}
-		all = append(all, Case{L: l, A: a})
+		all = append(all, Case{L: l, A: a, Surf: []int{0, 0, 1, 2, 2}[r.Intn(5)]})
 	}
 	walked := map[string]bool{}
 	for _, c := range all {
 		setList(c.L)
+		surfMode = c.Surf
 		for _, v := range Variants {
 			rec := Rec{Kind: "page", L: c.L, A: c.A, Variant: v, Visited: []string{}}
 			rec.Got = run(schema, queryText(v, c.A, cur(c.A.After), cur(c.A.Before)))
